@@ -47,6 +47,11 @@ func (e *ATExecutor) Interceptors(hooks []exec.SQLHook) {
 func (e *ATExecutor) ExecWithNamedValue(ctx context.Context, execCtx *types.ExecContext, f exec.CallbackWithNamedValue) (types.ExecResult, error) {
 	queryParser, err := parser.DoParser(execCtx.Query)
 	if err != nil {
+		if !tm.IsGlobalTx(ctx) {
+			// outside a global transaction the proxy has no business with the statement (SAVEPOINT,
+			// XA verbs, vendor syntax ...): the database judges it
+			return NewPlainExecutor(nil, execCtx).ExecContext(ctx, f)
+		}
 		return nil, err
 	}
 
